@@ -32,6 +32,8 @@ BUILT = {
          "That the text 'A | B' is read as the pipe of A and B is a parser statement (C03); the harness compares Search('A | B', d) with Search(B, Search(A, d)) on the real library."),
  "C17": ("Theorems: Compile returns exactly one of (expression, error) on every byte string; a syntax error's offset lies in [0, len]; the caret rendering has the stated form and strings.Repeat is never called with a negative count; MustCompile panics exactly when Compile fails.",
          "Exact offsets are compared between library and model on generated inputs; the error message text is not modelled."),
+ "C09": ("Theorems: the dispatcher of functions.go (regenerated table, 26 handlers) equals the specification's call on every name and argument list, and the specification's call has the relational reading the property lists: sort/sort_by return a permutation in ascending order with equivalent keys in input order (stable), max/min the first greatest/least number or string (byte order = code-point order), max_by/min_by the element of the first extremal key and null for an empty array, merge gives each key the value of the last argument binding it, map returns one result per element (nulls kept), avg of nothing is null, to_number a finite number or null, not_null the first non-null argument, length/reverse count and reverse Unicode code points (UTF-8 decode-of-encode theorem), and the defining equations of the other functions; expression references are applied element by element with the element as current node (keyed).",
+         "The order theorems for numbers assume NumOrder (< is a strict weak order on finite numbers: an IEEE 754 fact about float64 that is not proved for the PrimFloat instance); 'to_string output decodes back to the argument' is checked by the run (Go-side round trip and model/library comparison), not proved. Full function x typed-universe matrix, standalone and nested, runs through library, model and specification."),
  "C16": ("Theorems: Search on any expression text and any JSON document returns, when it succeeds, a value with no expression reference and only well-formed string-keyed objects (unconditional, any number type incl. binary64); all its numbers are finite under the property's no-overflow proviso (NoOverflow: abs, ceil, floor, length conversion, addition and division by a length preserve finiteness - satisfiable, shown for exact arithmetic); to_number and JSON literals yield finite numbers or null/error, avg of nothing is null; JSON data is always serialisable.",
          "PARTIAL for the last clause: 'serialise and read back an equal value' is not a theorem (needs a print/parse round-trip law of float formatting); the harness does the json.Marshal/Unmarshal round trip and a nil-vs-empty type walk on the real result of every generated call. NoOverflow is a hypothesis on the number operations as a whole, so for binary64 the finiteness half is a theorem only about evaluations of a number type in which sums cannot overflow; on binary64 itself finiteness is checked by the run."),
  "C10": ("Theorems: the dispatcher of functions.go (regenerated table, resolveArgs/typeCheck, 26 handlers with unchecked assertions) equals the specification's call for every name and argument list; ill-typed / wrong arity / unknown => error; inconsistent by-keys => error at any length; evaluation never panics.",
